@@ -26,6 +26,22 @@ use util::*;
 #[global_allocator]
 static GLOBAL: guard_alloc::GuardAlloc = guard_alloc::GuardAlloc;
 
+/// Per-command CPU-time budget (bounded-progress watchdog): a call that is still running after this much *CPU time*
+/// of the process is killed by SIGVTALRM and attributed to the command by the orchestrator.  Every command of every
+/// workload normally takes milliseconds (a few seconds at most in unoptimised builds).
+#[cfg(not(miri))]
+fn arm_cpu_timer(secs: i64) {
+    let it = libc::itimerval {
+        it_interval: libc::timeval { tv_sec: 0, tv_usec: 0 },
+        it_value: libc::timeval { tv_sec: secs as _, tv_usec: 0 },
+    };
+    unsafe {
+        libc::setitimer(libc::ITIMER_VIRTUAL, &it, std::ptr::null_mut());
+    }
+}
+#[cfg(miri)]
+fn arm_cpu_timer(_secs: i64) {}
+
 fn main() {
     let args: Vec<String> = std::env::args().collect();
     // usage: nbdrive <script> [<from> [<to>]]   ('-' = stdin); output on stdout
@@ -53,6 +69,7 @@ fn main() {
     writeln!(w, "# probes {}", num_bigint::verif_probe::NAMES.join(",")).unwrap();
     w.flush().unwrap();
 
+    let cpu_budget: i64 = std::env::var("NBD_CMD_CPU_S").ok().and_then(|s| s.parse().ok()).unwrap_or(30);
     let mut idx = 0usize;
     for line in reader.lines() {
         let line = line.expect("read line");
@@ -70,6 +87,7 @@ fn main() {
         // BEGIN marker: lets the orchestrator name the command that killed the process.
         write!(w, "B {}\n", my).unwrap();
         w.flush().unwrap();
+        arm_cpu_timer(cpu_budget);
         let vals: Vec<Val> = toks.iter().map(|t| Val::parse(t)).collect();
         #[cfg(num_bigint_verif)]
         let snap0 = num_bigint::verif_probe::snapshot();
@@ -128,6 +146,7 @@ fn main() {
                 out.push(&s);
             }
         }
+        arm_cpu_timer(0);
         write!(w, "R {} {}\n", my, out.toks.join(" ")).unwrap();
         w.flush().unwrap();
     }
